@@ -96,6 +96,7 @@ fn dispatch(w: &[&str]) -> String {
         "tokencs" => tokop::run_enc_split(&w[1..]),
         "tokdec" => tokop::run_dec(&w[1..]),
         "tokdec2" => tokop::run_dec2(&w[1..]),
+        "tokcont" => tokop::run_cont(&w[1..]),
         _ => "bad-op".into()
     }
 }
